@@ -1,4 +1,181 @@
-//! Isolated child runs (stack exhaustion, cycles). Filled in with C01/C12.
-pub fn child_main(_spec: &str) {
-    println!("ERR unsupported");
+//! Isolated child runs: inputs whose purpose is to exhaust the stack (depth ladders,
+//! cyclic program references) are evaluated in a separate process so that an abort is an
+//! observation, not the end of the check.
+//!
+//! Protocol: `rscel-verif child -` reads a JSON spec from stdin, evaluates it once on the
+//! requested kind of stack and prints exactly one line `RESULT OK <text>` / `RESULT ERR
+//! <class>` / `RESULT PANIC <text>`; death by signal is visible to the parent as such.
+
+use crate::engine::{guard, run_child};
+use rscel::{BindContext, CelContext};
+use serde_json::{json, Value};
+
+/// source text of a nesting ladder
+pub fn ladder_source(construct: &str, depth: usize) -> String {
+    let d = depth;
+    match construct {
+        "paren" => format!("{}1{}", "(".repeat(d), ")".repeat(d)),
+        "list" => format!("{}1{}", "[".repeat(d), "]".repeat(d)),
+        "map" => format!("{}1{}", "{'k':".repeat(d), "}".repeat(d)),
+        "not" => format!("{}true", "!".repeat(d)),
+        "neg" => format!("{}1", "-".repeat(d)),
+        "not-var" => format!("{}x", "!".repeat(d)),
+        "ternary-right" => format!("{}0", "x ? 1 : ".repeat(d)),
+        "ternary-paren" => format!("{}0{}", "x ? (".repeat(d), ") : 1".repeat(d)),
+        "add-chain" => format!("1{}", " + 1".repeat(d)),
+        "add-chain-var" => format!("x{}", " + x".repeat(d)),
+        "or-chain" => format!("x{}", " || x".repeat(d)),
+        "and-chain" => format!("x{}", " && x".repeat(d)),
+        "rel-chain" => format!("1{}", " < 2".repeat(d)),
+        "field-chain" => format!("m{}", ".a".repeat(d)),
+        "index-chain" => format!("l{}", "[0]".repeat(d)),
+        "call-nest" => format!("{}'a'{}", "size(".repeat(d), ")".repeat(d)),
+        "dyn-nest-var" => format!("{}x{}", "dyn(".repeat(d), ")".repeat(d)),
+        "method-chain" => format!("'a'{}", ".trim()".repeat(d)),
+        "macro-nest" => format!("{}1{}", "[1].map(e, ".repeat(d), ")".repeat(d)),
+        "macro-nest-var" => format!("{}x{}", "[x].all(e, ".repeat(d), ")".repeat(d)),
+        "has-nest" => format!("{}x{}", "has(".repeat(d), ")".repeat(d)),
+        "coalesce-nest" => format!("{}x{}", "coalesce(".repeat(d), ")".repeat(d)),
+        "fstring-nest" => {
+            // f'{f"{...}"}' alternating quote styles is not nestable beyond depth 2 lexically;
+            // use string() of an f-string inside a call instead
+            format!("{}'a'{}", "string(f'{".repeat(d.min(1)), "}')".repeat(d.min(1)))
+        }
+        "match-nest" => format!("{}1{}", "match x { case _: ".repeat(d), " }".repeat(d)),
+        "match-scrutinee-nest" => format!("{}x{}", "match ".repeat(d), " { case _: 1 }".repeat(d)),
+        "list-wide" => format!("[{}]", vec!["1"; d].join(",")),
+        "list-wide-var" => format!("[{}]", vec!["x"; d].join(",")),
+        "map-wide" => format!("{{{}}}", (0..d).map(|i| format!("'k{}': x", i)).collect::<Vec<_>>().join(",")),
+        "args-wide" => format!("max({})", vec!["x"; d.max(1)].join(",")),
+        "string-long" => format!("'{}'", "a".repeat(d)),
+        "ident-long" => "x".repeat(d.max(1)),
+        _ => "1".to_string(),
+    }
+}
+
+pub const LADDER_CONSTRUCTS: &[&str] = &[
+    "paren", "list", "map", "not", "neg", "not-var", "ternary-right", "ternary-paren", "add-chain", "add-chain-var",
+    "or-chain", "and-chain", "rel-chain", "field-chain", "index-chain", "call-nest", "dyn-nest-var", "method-chain",
+    "macro-nest", "macro-nest-var", "has-nest", "coalesce-nest", "match-nest", "match-scrutinee-nest", "list-wide",
+    "list-wide-var", "map-wide", "args-wide", "string-long", "ident-long",
+];
+
+fn eval_spec(spec: &Value) -> String {
+    let mut ctx = CelContext::new();
+    let mut progs: Vec<(String, String)> = Vec::new();
+    match spec.get("kind").and_then(|k| k.as_str()).unwrap_or("") {
+        "ladder" => {
+            let c = spec.get("construct").and_then(|c| c.as_str()).unwrap_or("paren");
+            let d = spec.get("depth").and_then(|d| d.as_u64()).unwrap_or(1) as usize;
+            progs.push(("main".into(), ladder_source(c, d)));
+        }
+        "programs" => {
+            if let Some(arr) = spec.get("programs").and_then(|p| p.as_array()) {
+                for p in arr {
+                    if let (Some(n), Some(s)) = (p.get(0).and_then(|x| x.as_str()), p.get(1).and_then(|x| x.as_str())) {
+                        progs.push((n.to_string(), s.to_string()));
+                    }
+                }
+            }
+        }
+        other => return format!("RESULT ERR bad-spec-{}", other),
+    }
+    let entry = spec.get("entry").and_then(|e| e.as_str()).unwrap_or("main").to_string();
+    let r = guard(|| {
+        for (n, s) in &progs {
+            ctx.add_program_str(n, s)?;
+        }
+        let mut b = BindContext::new();
+        // the standard bindings every ladder may mention
+        b.bind_param("x", rscel::CelValue::Bool(true));
+        let mut m = std::collections::HashMap::new();
+        m.insert("a".to_string(), rscel::CelValue::Int(1));
+        b.bind_param("m", rscel::CelValue::Map(m));
+        b.bind_param("l", rscel::CelValue::List(vec![rscel::CelValue::Int(1)]));
+        if let Some(extra) = spec.get("binds").and_then(|b| b.as_object()) {
+            for (k, v) in extra {
+                b.bind_param(k, rscel::CelValue::from(v));
+            }
+        }
+        ctx.exec(&entry, &b)
+    });
+    // dropping deep structures can overflow too: do it before reporting
+    drop(ctx);
+    match r {
+        Ok(Ok(v)) => {
+            let mut t = crate::run::canon_cel(&v);
+            t.truncate(200);
+            format!("RESULT OK {}", t)
+        }
+        Ok(Err(e)) => format!("RESULT ERR {}", crate::run::err_class(&e)),
+        Err(p) => format!("RESULT PANIC {} @ {}", p.msg, p.loc),
+    }
+}
+
+pub fn child_main(_arg: &str) {
+    use std::io::Read;
+    let mut s = String::new();
+    let _ = std::io::stdin().read_to_string(&mut s);
+    let spec: Value = match serde_json::from_str(&s) {
+        Ok(v) => v,
+        Err(_) => {
+            println!("RESULT ERR bad-spec");
+            return;
+        }
+    };
+    let stack = spec.get("stack").and_then(|s| s.as_str()).unwrap_or("main").to_string();
+    let line = if stack == "main" {
+        // the process's main thread: the default 8 MiB stack
+        eval_spec(&spec)
+    } else {
+        // a thread with Rust's default stack size (2 MiB)
+        let sp = spec.clone();
+        match std::thread::Builder::new().spawn(move || eval_spec(&sp)) {
+            Ok(h) => h.join().unwrap_or_else(|_| "RESULT PANIC thread".to_string()),
+            Err(_) => "RESULT ERR spawn".to_string(),
+        }
+    };
+    println!("{}", line);
+}
+
+#[derive(Debug, Clone)]
+pub enum ChildVerdict {
+    /// returned a value or an error: (kind, text)
+    Returned(String),
+    Panicked(String),
+    /// killed by a signal / aborted (stack overflow)
+    Died(String),
+    Timeout,
+    Broken(String),
+}
+
+/// Evaluate a spec in an isolated child of the given profile.
+pub fn run_spec(profile: &str, spec: &Value, timeout_s: u64) -> ChildVerdict {
+    let out = run_child(profile, &["child".to_string(), "-".to_string()], timeout_s, Some(&spec.to_string()));
+    if out.status == "timeout" {
+        return ChildVerdict::Timeout;
+    }
+    let line = out.stdout.lines().find(|l| l.starts_with("RESULT ")).map(|l| l.to_string());
+    match (out.status.as_str(), line) {
+        ("ok", Some(l)) => {
+            if let Some(rest) = l.strip_prefix("RESULT PANIC ") {
+                ChildVerdict::Panicked(rest.to_string())
+            } else {
+                ChildVerdict::Returned(l["RESULT ".len()..].to_string())
+            }
+        }
+        (st, _) if st.starts_with("signal:") || st.starts_with("exit:") => {
+            let why = if out.stderr_tail.contains("overflowed its stack") {
+                "stack overflow".to_string()
+            } else {
+                out.stderr_tail.lines().last().unwrap_or("").to_string()
+            };
+            ChildVerdict::Died(format!("{} ({})", st, why))
+        }
+        (st, l) => ChildVerdict::Broken(format!("status {} line {:?}", st, l)),
+    }
+}
+
+pub fn ladder_spec(construct: &str, depth: usize, stack: &str) -> Value {
+    json!({"kind": "ladder", "construct": construct, "depth": depth, "stack": stack})
 }
